@@ -414,6 +414,28 @@ int main(int argc, char **argv) {
           }
         }
       }
+      if (fmt == 1) {
+        // every number of the file (after the message) replaced by one outside the range of int / long:
+        // counts, option values, vector values, suffix indices and values, objno and solve code
+        static const char *WIDE[] = {"99999999999999999999", "1e22", "-3147483648", "3147483648.5", "nan", "-1e400"};
+        size_t start = b.b.find("\n\n");
+        size_t ntok = 0;
+        for (size_t p = start == std::string::npos ? 0 : start; p < b.b.size(); ) {
+          bool tokstart = (isdigit((unsigned char)b.b[p]) || ((b.b[p] == '-' || b.b[p] == '+') && p + 1 < b.b.size() && isdigit((unsigned char)b.b[p + 1])))
+                          && (p == 0 || b.b[p - 1] == ' ' || b.b[p - 1] == '\n');
+          if (!tokstart) { ++p; continue; }
+          size_t q = p + 1;
+          while (q < b.b.size() && b.b[q] != ' ' && b.b[q] != '\n') ++q;
+          size_t ls = b.b.rfind('\n', p); ls = ls == std::string::npos ? 0 : ls + 1;
+          std::string which = !b.b.compare(ls, 6, "objno ") ? "objno" : !b.b.compare(ls, 7, "suffix ") ? "sufhead" : b.b.find(' ', ls) < b.b.find('\n', ls) ? "pair" : "scalar";
+          const char *w = WIDE[(ntok + k) % 6];
+          Bytes t = b;
+          t.b = b.b.substr(0, p) + w + b.b.substr(q);
+          one_read(t.b, f0, "text", "wide@" + std::to_string(ntok) + "=" + w, "wide:" + which,
+                   (int)f0.nvars, (int)f0.ncons, "equal", ALL, (int)k);
+          ++ntok; p = q;
+        }
+      }
       if (fmt == 2) {
         // the file ends inside / just before the last value of a vector: read with the true sizes by a handler that
         // takes everything (never sampled away)
